@@ -30,6 +30,8 @@ pub struct Vocab {
     pub words: Vec<Vec<u8>>,
     pub specials: Vec<u32>,
     pub eos: u32,
+    /// every EOS id (primary first); `[eos]` unless built by `with_extra_eos`
+    pub eos_all: Vec<u32>,
     pub canonical: bool,
 }
 
@@ -63,8 +65,27 @@ impl Vocab {
             words,
             specials,
             eos,
+            eos_all: vec![eos],
             canonical,
         }
+    }
+    /// same words under a harness env whose trie has several EOS ids (primary unchanged)
+    pub fn with_extra_eos(&self, extra: &[u32]) -> Vocab {
+        let mut all = vec![self.eos];
+        for &e in extra {
+            if !all.contains(&e) {
+                all.push(e);
+            }
+        }
+        let trie = self.trie().with_eos_tokens(&all);
+        let mut v = self.clone();
+        v.env = Arc::new(HEnv { trie, canonical: self.canonical });
+        v.eos_all = all;
+        v.name = format!("{}+eos{}", self.name, v.eos_all.len());
+        v
+    }
+    pub fn is_eos(&self, t: u32) -> bool {
+        self.eos_all.contains(&t)
     }
 }
 
@@ -223,6 +244,7 @@ pub fn vbpe(n: usize) -> Result<Vocab> {
         words,
         specials,
         eos,
+        eos_all: vec![eos],
         canonical: true,
     })
 }
